@@ -677,6 +677,81 @@ func C04(c *Ctx) {
 		}
 	}
 	c.R.Check(okCand, "C04-R2", "try: guard is given the match candidates", c.pos(guardCall), "guard executes with an element of the match result", "the guard does not receive the bindings produced by the pattern match")
+	// absent current bindings: on the pattern-less path the only candidate is the current bindings themselves,
+	// and nil there would be read as "the branch is not followed"
+	{
+		okAbsent, whyAbsent := false, "no pattern-less candidate list found"
+		var bsPar *ssa.Parameter
+		for _, p := range try.Params {
+			if ssau.TypeIs(p.Type(), prog.Abs("match"), "Bindings") {
+				bsPar = p
+			}
+		}
+		for _, f := range closure {
+			ssau.Instrs(f, func(in ssa.Instruction) {
+				st, ok := in.(*ssa.Store)
+				if !ok {
+					return
+				}
+				ia, isIA := st.Addr.(*ssa.IndexAddr)
+				if !isIA {
+					return
+				}
+				al, isAl := ia.X.(*ssa.Alloc)
+				if !isAl {
+					return
+				}
+				arr, isArr := al.Type().Underlying().(*types.Pointer).Elem().Underlying().(*types.Array)
+				if !isArr || !isBindingsT(arr.Elem()) {
+					return
+				}
+				// []Bindings{x}: every definition of x that is the current bindings is chosen where they are non-nil
+				okAbsent, whyAbsent = true, ""
+				for _, da := range phiEdgesWithBlocks(st.Val, st.Block()) {
+					isCur := false
+					for _, d := range deepDefs(da.v, closure) {
+						if pr, isP := d.(*ssa.Parameter); isP && pr == bsPar {
+							isCur = true
+						}
+					}
+					if !isCur {
+						continue
+					}
+					nonNil := false
+					for _, blk := range []*ssa.BasicBlock{da.b, st.Block()} {
+						for _, fc := range flow.FactsAt(blk) {
+							if bo, isB := fc.Cond.(*ssa.BinOp); isB && ssau.IsNilConst(bo.Y) && ((bo.Op == token.NEQ && fc.True) || (bo.Op == token.EQL && !fc.True)) {
+								for _, d := range deepDefs(bo.X, closure) {
+									if pr, isP := d.(*ssa.Parameter); isP && pr == bsPar {
+										nonNil = true
+									}
+								}
+							}
+						}
+					}
+					if ph, isPhi := st.Val.(*ssa.Phi); isPhi {
+						for i, e := range ph.Edges {
+							if e == da.v && ph.Block().Preds[i] == da.b {
+								for _, fc := range flow.EdgeFacts(da.b, ph.Block()) {
+									if bo, isB := fc.Cond.(*ssa.BinOp); isB && ssau.IsNilConst(bo.Y) && ((bo.Op == token.NEQ && fc.True) || (bo.Op == token.EQL && !fc.True)) {
+										for _, d := range deepDefs(bo.X, closure) {
+											if pr, isP := d.(*ssa.Parameter); isP && pr == bsPar {
+												nonNil = true
+											}
+										}
+									}
+								}
+							}
+						}
+					}
+					if !nonNil {
+						okAbsent, whyAbsent = false, "the current bindings become the only candidate of a pattern-less branch as they are ("+c.pos(st)+"): from a state with absent (nil) bindings the branch is then never followed, because nil means 'not followed'"
+					}
+				}
+			})
+		}
+		c.R.Check(okAbsent, "C04-R2", "try: absent bindings are empty bindings on the pattern-less path", c.pos(bsStores[0]), "the candidate is the current bindings only where they are non-nil (else new bindings)", whyAbsent)
+	}
 	// R5: every value the next node's name can take is the branch's Target, or was looked up in the very bindings that become the next state's bindings
 	resLeaves := map[ssa.Value]bool{resBs: true}
 	for _, d := range deepDefs(resBs, closure) {
